@@ -1,3 +1,387 @@
 import RzmqModel.Model.Pool
+/-!
+# Proofs about M10 `Pool` (used by `Props/C20.lean`)
+
+`Pool.Consistent` only talks about `used` and `free`; the list-level predicate `ConsL` is the same statement, and the three
+ways `step` changes these two lists (take the head of the free list, release an id that is free, release an id that is in use)
+each keep it.  The reachable-state invariant `Pool.Inv` adds that every lease refers to a buffer that exists.
+-/
 namespace Rzmq
+
+/-- `Pool.Consistent` as a predicate on the two lists it depends on -/
+def ConsL (used : List Bool) (free : List Nat) : Prop :=
+  free.Nodup ∧ (∀ id, id ∈ free → id < used.length ∧ used[id]? = some false)
+  ∧ (∀ id, id < used.length → used[id]? = some false → id ∈ free)
+
+theorem Pool.consistent_iff (p : Pool) : p.Consistent ↔ ConsL p.used p.free := Iff.rfl
+
+/-- handing out the head of the free list -/
+theorem ConsL.take {used : List Bool} {id : Nat} {rest : List Nat} (h : ConsL used (id :: rest)) :
+    ConsL (used.set id true) rest := by
+  obtain ⟨hnd, hfree, hused⟩ := h
+  have hnd' := List.nodup_cons.mp hnd
+  refine ⟨hnd'.2, ?_, ?_⟩
+  · intro j hj
+    have hne : id ≠ j := fun e => hnd'.1 (e ▸ hj)
+    have := hfree j (List.mem_cons_of_mem _ hj)
+    rw [List.length_set, List.getElem?_set_ne hne]
+    exact this
+  · intro j hj hv
+    rw [List.length_set] at hj
+    by_cases hne : id = j
+    · subst hne
+      rw [List.getElem?_set_self hj] at hv
+      cases hv
+    · rw [List.getElem?_set_ne hne] at hv
+      cases List.mem_cons.mp (hused j hj hv) with
+      | inl e => exact absurd e.symm hne
+      | inr m => exact m
+
+/-- releasing an id that is already on the free list changes nothing that matters -/
+theorem ConsL.release_mem {used : List Bool} {free : List Nat} {id : Nat} (h : ConsL used free) (hm : id ∈ free) :
+    ConsL (used.set id false) free := by
+  obtain ⟨hnd, hfree, hused⟩ := h
+  have hid := hfree id hm
+  have hset : ∀ j : Nat, (used.set id false)[j]? = used[j]? := by
+    intro j
+    by_cases hne : id = j
+    · subst hne; rw [List.getElem?_set_self hid.1, hid.2]
+    · rw [List.getElem?_set_ne hne]
+  refine ⟨hnd, ?_, ?_⟩
+  · intro j hj; rw [List.length_set, hset]; exact hfree j hj
+  · intro j hj hv; rw [List.length_set] at hj; rw [hset] at hv; exact hused j hj hv
+
+/-- releasing an id that is in use appends it to the free list -/
+theorem ConsL.release_not_mem {used : List Bool} {free : List Nat} {id : Nat} (h : ConsL used free)
+    (hlt : id < used.length) (hm : id ∉ free) : ConsL (used.set id false) (free ++ [id]) := by
+  obtain ⟨hnd, hfree, hused⟩ := h
+  refine ⟨?_, ?_, ?_⟩
+  · rw [List.nodup_append]
+    refine ⟨hnd, List.nodup_cons.mpr ⟨List.not_mem_nil, List.nodup_nil⟩, ?_⟩
+    intro a ha b hb e
+    rw [List.mem_singleton] at hb
+    subst hb; subst e
+    exact hm ha
+  · intro j hj
+    rw [List.length_set]
+    rcases List.mem_append.mp hj with hj | hj
+    · have hne : id ≠ j := fun e => hm (e ▸ hj)
+      rw [List.getElem?_set_ne hne]; exact hfree j hj
+    · rw [List.mem_singleton] at hj
+      subst hj
+      exact ⟨hlt, List.getElem?_set_self hlt⟩
+  · intro j hj hv
+    rw [List.length_set] at hj
+    by_cases hne : id = j
+    · subst hne; exact List.mem_append_right _ (List.mem_singleton.mpr rfl)
+    · rw [List.getElem?_set_ne hne] at hv
+      exact List.mem_append_left _ (hused j hj hv)
+
+/-- a consistent pool whose buffers are all not in use has all of them on the free list -/
+theorem ConsL.length_free_of_all_unused {used : List Bool} {free : List Nat} (h : ConsL used free)
+    (hall : ∀ id, id < used.length → used[id]? = some false) : free.length = used.length := by
+  obtain ⟨hnd, hfree, hused⟩ := h
+  apply Nat.le_antisymm
+  · have := hnd.length_le_of_subset (l₂ := List.range used.length)
+      (fun j hj => List.mem_range.mpr (hfree j hj).1)
+    rwa [List.length_range] at this
+  · have := (List.nodup_range (n := used.length)).length_le_of_subset (l₂ := free)
+      (fun j hj => hused j (List.mem_range.mp hj) (hall j (List.mem_range.mp hj)))
+    rwa [List.length_range] at this
+
+-- `release` ---------------------------------------------------------------------------------------------------------------
+
+theorem Pool.release_used_length (p : Pool) (id : Nat) : (p.release id).used.length = p.used.length := by
+  unfold Pool.release
+  split
+  · split <;> simp [Pool.setUsed]
+  · rfl
+
+theorem Pool.release_leases (p : Pool) (id : Nat) : (p.release id).leases = p.leases := by
+  unfold Pool.release
+  split
+  · split <;> rfl
+  · rfl
+
+theorem Pool.release_cap (p : Pool) (id : Nat) : (p.release id).cap = p.cap := by
+  unfold Pool.release
+  split
+  · split <;> rfl
+  · rfl
+
+theorem Pool.release_consistent {p : Pool} (h : p.Consistent) (id : Nat) : (p.release id).Consistent := by
+  unfold Pool.release
+  split
+  · rename_i hlt
+    split
+    · rename_i hc
+      exact ConsL.release_mem h (List.contains_iff_mem.mp hc)
+    · rename_i hc
+      exact ConsL.release_not_mem h hlt (fun hm => hc (List.contains_iff_mem.mpr hm))
+  · exact h
+
+/-- `release` of an existing buffer always leaves it on the free list (double releases included) -/
+theorem Pool.mem_free_release {p : Pool} {id : Nat} (hlt : id < p.used.length) : id ∈ (p.release id).free := by
+  unfold Pool.release
+  rw [if_pos hlt]
+  split
+  · rename_i hc; exact List.contains_iff_mem.mp hc
+  · exact List.mem_append_right _ (List.mem_singleton.mpr rfl)
+
+/-- `release` of an id that is not a buffer of the pool does nothing -/
+theorem Pool.release_of_not_lt {p : Pool} {id : Nat} (h : ¬ id < p.used.length) : p.release id = p := by
+  unfold Pool.release
+  rw [if_neg h]
+
+-- `step` ------------------------------------------------------------------------------------------------------------------
+
+theorem Pool.step_used_length (p : Pool) (e : PoolEv) : (p.step e).1.used.length = p.used.length := by
+  cases e with
+  | acquire len =>
+    simp only [Pool.step]
+    split
+    · rfl
+    · split
+      · rfl
+      · split
+        · rfl
+        · simp [Pool.setUsed]
+  | lease =>
+    simp only [Pool.step]
+    split
+    · rfl
+    · simp [Pool.setUsed]
+  | handOver id => rfl
+  | dropLease id =>
+    simp only [Pool.step]
+    split
+    · rfl
+    · split
+      · rfl
+      · rw [Pool.release_used_length]
+  | release id => exact Pool.release_used_length p id
+
+theorem Pool.step_consistent {p : Pool} (h : p.Consistent) (e : PoolEv) : (p.step e).1.Consistent := by
+  cases e with
+  | acquire len =>
+    simp only [Pool.step]
+    split
+    · exact h
+    · split
+      · exact h
+      · rename_i id rest hf
+        split
+        · exact h
+        · have h' : ConsL p.used (id :: rest) := hf ▸ h
+          exact h'.take
+  | lease =>
+    simp only [Pool.step]
+    split
+    · exact h
+    · rename_i id rest hf
+      have h' : ConsL p.used (id :: rest) := hf ▸ h
+      exact h'.take
+  | handOver id => exact h
+  | dropLease id =>
+    simp only [Pool.step]
+    split
+    · exact h
+    · split
+      · exact h
+      · exact Pool.release_consistent (p := { p with leases := p.leases.filter (·.1 != id) }) h id
+  | release id => exact Pool.release_consistent h id
+
+/-- what a hand-out looks like: the id was free (it was the head of the free list), it is marked in use afterwards and is
+no longer on the free list -/
+theorem Pool.step_some {p : Pool} (hc : p.Consistent) {e : PoolEv} {id : Nat} (h : (p.step e).2 = some id) :
+    id ∈ p.free ∧ (p.step e).1.used[id]? = some true ∧ id ∉ (p.step e).1.free := by
+  have key : ∀ (i : Nat) (rest : List Nat), p.free = i :: rest →
+      i ∈ p.free ∧ (p.used.set i true)[i]? = some true ∧ i ∉ rest := by
+    intro i rest hf
+    have hm : i ∈ p.free := by rw [hf]; exact List.mem_cons_self
+    refine ⟨hm, List.getElem?_set_self (hc.2.1 i hm).1, ?_⟩
+    have := hc.1
+    rw [hf] at this
+    exact (List.nodup_cons.mp this).1
+  cases e with
+  | acquire len =>
+    cases hf : p.free with
+    | nil => simp [Pool.step, hf] at h
+    | cons i rest =>
+      by_cases hz : len = 0
+      · simp [Pool.step, hz] at h
+      · by_cases hlen : len > p.cap
+        · simp [Pool.step, hf, hz, hlen] at h
+        · have h' : i = id := by simpa [Pool.step, hf, hz, hlen] using h
+          subst h'
+          have := key i rest hf
+          rw [hf] at this
+          simpa [Pool.step, hf, hz, hlen, Pool.setUsed] using this
+  | lease =>
+    cases hf : p.free with
+    | nil => simp [Pool.step, hf] at h
+    | cons i rest =>
+      have h' : i = id := by simpa [Pool.step, hf] using h
+      subst h'
+      have := key i rest hf
+      rw [hf] at this
+      simpa [Pool.step, hf, Pool.setUsed] using this
+  | handOver j => cases h
+  | dropLease j =>
+    simp only [Pool.step] at h
+    split at h
+    · cases h
+    · cases h
+  | release j => cases h
+
+-- reachable states -------------------------------------------------------------------------------------------------------
+
+/-- invariant of every reachable pool: consistent, and every lease refers to an existing buffer -/
+def Pool.Inv (p : Pool) : Prop := p.Consistent ∧ ∀ l, l ∈ p.leases → l.1 < p.used.length
+
+theorem Pool.step_inv {p : Pool} (h : p.Inv) (e : PoolEv) : (p.step e).1.Inv := by
+  refine ⟨Pool.step_consistent h.1 e, ?_⟩
+  rw [Pool.step_used_length]
+  have hl := h.2
+  cases e with
+  | acquire len =>
+    simp only [Pool.step]
+    split
+    · exact hl
+    · split
+      · exact hl
+      · split
+        · exact hl
+        · exact hl
+  | lease =>
+    simp only [Pool.step]
+    split
+    · exact hl
+    · rename_i id rest hf
+      intro l hm
+      rcases List.mem_append.mp hm with hm | hm
+      · exact hl l hm
+      · rw [List.mem_singleton] at hm
+        subst hm
+        exact (h.1.2.1 id (by rw [hf]; exact List.mem_cons_self)).1
+  | handOver id =>
+    simp only [Pool.step]
+    intro l hm
+    obtain ⟨l0, hm0, rfl⟩ := List.mem_map.mp hm
+    split
+    · rename_i he
+      have := hl l0 hm0
+      rwa [beq_iff_eq.mp he] at this
+    · exact hl l0 hm0
+  | dropLease id =>
+    simp only [Pool.step]
+    split
+    · exact hl
+    · split
+      · intro l hm; exact hl l (List.mem_filter.mp hm).1
+      · rw [Pool.release_leases]
+        intro l hm; exact hl l (List.mem_filter.mp hm).1
+  | release id =>
+    simp only [Pool.step]
+    rw [Pool.release_leases]; exact hl
+
+theorem Pool.run_inv {p : Pool} (h : p.Inv) (evs : List PoolEv) : (p.run evs).Inv := by
+  induction evs generalizing p with
+  | nil => exact h
+  | cons e es ih => exact ih (Pool.step_inv h e)
+
+theorem Pool.run_used_length (p : Pool) (evs : List PoolEv) : (p.run evs).used.length = p.used.length := by
+  induction evs generalizing p with
+  | nil => rfl
+  | cons e es ih =>
+    show ((p.step e).1.run es).used.length = _
+    rw [ih, Pool.step_used_length]
+
+theorem Pool.new_inv (count cap : Nat) : (Pool.new count cap).Inv := by
+  unfold Pool.new
+  split
+  · exact ⟨⟨List.nodup_nil, (by intro id h; cases h), (by intro id h; cases h)⟩, (by intro l h; cases h)⟩
+  · refine ⟨⟨List.nodup_range, ?_, ?_⟩, (by intro l h; cases h)⟩
+    · intro id h
+      have := List.mem_range.mp h
+      simp [this]
+    · intro id h _
+      simpa using h
+
+theorem Pool.new_used_length_le (count cap : Nat) : (Pool.new count cap).used.length ≤ count := by
+  unfold Pool.new
+  split <;> simp
+
+theorem Pool.reachable_inv (count cap : Nat) (evs : List PoolEv) : ((Pool.new count cap).run evs).Inv :=
+  Pool.run_inv (Pool.new_inv count cap) evs
+
+-- dropping a lease -------------------------------------------------------------------------------------------------------
+
+/-- with exactly one lease entry for `id`, `find?` finds that entry -/
+theorem find?_of_mem_of_filter_length_one {leases : List (Nat × Bool)} {id : Nat} {b : Bool} (h : (id, b) ∈ leases)
+    (huniq : (leases.filter (·.1 == id)).length = 1) : leases.find? (·.1 == id) = some (id, b) := by
+  have hm : (id, b) ∈ leases.filter (·.1 == id) := List.mem_filter.mpr ⟨h, by simp⟩
+  cases hf : leases.filter (·.1 == id) with
+  | nil => rw [hf] at huniq; cases huniq
+  | cons x xs =>
+    cases xs with
+    | cons y ys => rw [hf] at huniq; simp at huniq
+    | nil =>
+      rw [hf, List.mem_singleton] at hm
+      rw [← List.head?_filter, hf, hm]
+      rfl
+
+/-- what `dropLease` of a never-handed-over, unique lease does: it is exactly `release_buffer` (plus forgetting the lease) -/
+theorem Pool.step_dropLease_unhanded {p : Pool} {id : Nat} (h : (id, false) ∈ p.leases)
+    (huniq : (p.leases.filter (·.1 == id)).length = 1) :
+    (p.step (.dropLease id)).1 = ({ p with leases := p.leases.filter (·.1 != id) } : Pool).release id := by
+  simp only [Pool.step, find?_of_mem_of_filter_length_one h huniq]
+  rfl
+
+/-- `C20.dropped_lease_returns_buffer` is FALSE as stated: `Consistent` says nothing about the leases, so a lease may name
+a buffer the pool does not have, and `release_buffer` ignores such an id.  Minimal counterexample: the empty pool holding
+the lease `(0, false)`. -/
+theorem dropped_lease_returns_buffer_counterexample :
+    ¬ ∀ (p : Pool), p.Consistent → ∀ id : Nat, (id, false) ∈ p.leases →
+        (p.leases.filter (·.1 == id)).length = 1 → id ∈ (p.step (.dropLease id)).1.free := by
+  intro hall
+  have := hall { leases := [(0, false)] } ⟨List.nodup_nil, (by intro id h; cases h), (by intro id h; cases h)⟩ 0
+    (by decide) (by decide)
+  revert this
+  decide
+
+/-- the true variant: the lease must name a buffer of the pool (`id < p.used.length`); consistency is then not even needed -/
+theorem dropped_lease_returns_buffer_partial (p : Pool) (id : Nat) (hid : id < p.used.length)
+    (h : (id, false) ∈ p.leases) (huniq : (p.leases.filter (·.1 == id)).length = 1) :
+    id ∈ (p.step (.dropLease id)).1.free := by
+  rw [Pool.step_dropLease_unhanded h huniq]
+  exact Pool.mem_free_release (p := { p with leases := p.leases.filter (·.1 != id) }) hid
+
+/-- the added hypothesis is exactly what is missing: for a consistent pool the buffer comes back iff it exists -/
+theorem dropped_lease_returns_buffer_iff (p : Pool) (hc : p.Consistent) (id : Nat)
+    (h : (id, false) ∈ p.leases) (huniq : (p.leases.filter (·.1 == id)).length = 1) :
+    id ∈ (p.step (.dropLease id)).1.free ↔ id < p.used.length := by
+  constructor
+  · intro hm
+    rw [Pool.step_dropLease_unhanded h huniq] at hm
+    have hc' := Pool.release_consistent (p := { p with leases := p.leases.filter (·.1 != id) }) hc id
+    have := (hc'.2.1 id hm).1
+    rwa [Pool.release_used_length] at this
+  · intro hid; exact dropped_lease_returns_buffer_partial p id hid h huniq
+
+/-- … and every pool the backend can actually be in (any history from `Pool.new`) satisfies it: there the statement of
+`C20.dropped_lease_returns_buffer` holds without any extra hypothesis -/
+theorem dropped_lease_returns_buffer_reachable (count cap : Nat) (evs : List PoolEv) (id : Nat)
+    (h : (id, false) ∈ ((Pool.new count cap).run evs).leases)
+    (huniq : ((((Pool.new count cap).run evs).leases).filter (·.1 == id)).length = 1) :
+    id ∈ (((Pool.new count cap).run evs).step (.dropLease id)).1.free :=
+  dropped_lease_returns_buffer_partial _ id ((Pool.reachable_inv count cap evs).2 _ h) h huniq
+
+/-- a lease that was handed over does not give its buffer back when dropped: the pool only forgets the lease -/
+theorem handed_over_lease_keeps_buffer (p : Pool) (id : Nat) (h : (id, true) ∈ p.leases)
+    (huniq : (p.leases.filter (·.1 == id)).length = 1) :
+    (p.step (.dropLease id)).1 = { p with leases := p.leases.filter (·.1 != id) } := by
+  simp only [Pool.step, find?_of_mem_of_filter_length_one h huniq]
+  rfl
+
 end Rzmq
